@@ -437,12 +437,37 @@ impl MintBuilder {
         &self,
     ) -> impl Iterator<Item = (&TransactionInput, usize)> {
         self.mints.iter().filter_map(|(_, script_mint)| {
-            if let ScriptMint::Plutus(plutus_mints) = script_mint {
-                if let PlutusScriptSourceEnum::RefInput(script_ref, _) = &plutus_mints.script {
-                    return Some((&script_ref.input_ref, script_ref.script_size));
+            match script_mint {
+                ScriptMint::Plutus(plutus_mints) => {
+                    if let PlutusScriptSourceEnum::RefInput(script_ref, _) = &plutus_mints.script {
+                        return Some((&script_ref.input_ref, script_ref.script_size));
+                    }
+                }
+                ScriptMint::Native(native_mints) => {
+                    if let NativeScriptSourceEnum::RefInput(input, _, _, size) =
+                        &native_mints.script
+                    {
+                        return Some((input, *size));
+                    }
                 }
             }
             None
         })
+    }
+
+    /// Keys that have to sign because of the minting scripts: the signers declared on a script
+    /// source, or every key of a native script that is part of the witness set
+    pub(crate) fn get_required_signers(&self) -> Ed25519KeyHashes {
+        let mut set = Ed25519KeyHashes::new();
+        for script_mint in self.mints.values() {
+            let signers = match script_mint {
+                ScriptMint::Native(native_mints) => native_mints.script.required_signers(),
+                ScriptMint::Plutus(plutus_mints) => plutus_mints.script.get_required_signers(),
+            };
+            if let Some(signers) = signers {
+                set.extend_move(signers);
+            }
+        }
+        set
     }
 }
